@@ -9,17 +9,8 @@ from pyvc.runner import key_of
 ledger = {}
 mods = sys.argv[1:] or sorted(f[:-3] for f in os.listdir('/verif/contracts') if f.endswith('.py') and f != '__init__.py')
 for modname in mods:
-    m = importlib.import_module('contracts.' + modname)
-    cons = {q: Contract(q, d, m.ALIASES) for q, d in m.C.items()}
-    eng = Executor(cons, m.ALIASES, getattr(m, 'MACROS', {}), getattr(m, 'GLOBALS', {}))
-    eng.exc_parents = getattr(m, 'EXC_PARENTS', {})
-    eng.sigs = {}
-    nodes, shas = {}, {}
-    for q, c in cons.items():
-        if c.d.get('external'):
-            continue
-        node, seg, sha, path = extract.find(q)
-        nodes[q] = node; shas[q] = sha; eng.sigs[q] = extract.signature_defaults(node)
+    from pyvc.execute import make_engine
+    eng, cons, nodes, shas, errs = make_engine(modname)
     obls = []
     for q, c in cons.items():
         if q in nodes and not c.trusted:
